@@ -580,9 +580,10 @@ class tzfile(_tzinfo):
         # The pairs of values are sorted in ascending order
         # by time.
 
-        # Not used, for now (but seek for correct file position)
+        # Not used, for now (but read past them for correct file position;
+        # the stream need not be seekable)
         if leapcnt:
-            fileobj.seek(leapcnt * 8, os.SEEK_CUR)
+            fileobj.read(leapcnt * 8)
 
         # Then there are tzh_ttisstdcnt standard/wall
         # indicators, each stored as a one-byte value;
